@@ -1192,6 +1192,23 @@ class GroupCoordinator(BaseCoordinator):
 
         request = OffsetFetchRequest(self.group_id, list(partitions_by_topic.items()))
         response = await self._send_req(request)
+        if response.API_VERSION >= 2 and response.error_code:
+            # Since v2 group-level errors are reported in the top-level field only
+            # (the partition list is empty)
+            error_type = Errors.for_code(response.error_code)
+            log.debug("Error fetching offsets for group %s: %s", self.group_id, error_type)
+            if error_type is Errors.GroupLoadInProgressError:
+                raise error_type()
+            elif error_type in (
+                Errors.NotCoordinatorForGroupError,
+                Errors.GroupCoordinatorNotAvailableError,
+            ):
+                self.coordinator_dead()
+                raise error_type()
+            elif error_type is Errors.GroupAuthorizationFailedError:
+                raise error_type(self.group_id)
+            else:
+                raise Errors.KafkaError(repr(error_type()))
         offsets = {}
         for topic, topic_partitions in response.topics:
             for partition, offset, metadata, error_code in topic_partitions:
